@@ -3,25 +3,33 @@
 From PdV Require Export Common.
 From PdV.Model Require Export Lifecycle.
 
-(* a case: the reader(s), and per event the number of descriptors observed open on the source(s) after it *)
+(* a case: the reader(s) in reading order, and per event the number of descriptors observed open on
+   the source(s) after it and what the event produced (a block, StopIteration, an exception, nothing) *)
+Definition obsev : Type := gevent * nat * outcome.
 Inductive case :=
-| KOne (r : reader) (es : list (gevent * nat))
-| KMany (rs : list reader) (es : list (gevent * nat)).
+| KOne (r : reader) (es : list obsev)
+| KMany (rs : list reader) (es : list obsev).
 
-Fixpoint replay (r : reader) (s : gstate) (l : ledger) (es : list (gevent * nat)) : bool :=
-  match es with
-  | [] => true
-  | (e, n) :: rest =>
-      let '(s', l', _) := gstep r s l e in
-      Nat.eqb (held l') n && replay r s' l' rest
+Definition outcome_eqb (a b : outcome) : bool :=
+  match a, b with
+  | Yielded, Yielded | Stopped, Stopped | Raised, Raised | Nothing, Nothing => true
+  | _, _ => false
   end.
 
-Fixpoint lreplay (rs : list reader) (s : gstate) (l : ledger) (es : list (gevent * nat)) : bool :=
+Fixpoint replay (r : reader) (s : gstate) (l : ledger) (es : list obsev) : bool :=
   match es with
   | [] => true
-  | (e, n) :: rest =>
-      let '(rs', s', l', _) := lstep rs s l e in
-      Nat.eqb (held l') n && lreplay rs' s' l' rest
+  | (e, n, o) :: rest =>
+      let '(s', l', o') := gstep r s l e in
+      Nat.eqb (held l') n && outcome_eqb o' o && replay r s' l' rest
+  end.
+
+Fixpoint lreplay (rs : list reader) (s : gstate) (l : ledger) (es : list obsev) : bool :=
+  match es with
+  | [] => true
+  | (e, n, o) :: rest =>
+      let '(rs', s', l', o') := lstep rs s l e in
+      Nat.eqb (held l') n && outcome_eqb o' o && lreplay rs' s' l' rest
   end.
 
 Definition check (c : case) : bool :=
